@@ -66,15 +66,19 @@ u64 Btdmp::GetMaxSkip() const {
 }
 
 void Btdmp::Skip(u64 ticks) {
-    if (!transmit_enable)
+    if (!transmit_enable || ticks == 0)
         return;
 
-    if (transmit_timer >= transmit_period)
-        transmit_timer = 0;
-
-    u64 future_timer = transmit_timer + ticks;
-    u64 cycles = future_timer / transmit_period;
-    transmit_timer = (u16)(future_timer % transmit_period);
+    u64 cycles;
+    if (transmit_timer >= transmit_period) {
+        // period lowered to or below the running phase (or 0): Tick() transmits on the very next tick
+        cycles = 1 + (transmit_period ? (ticks - 1) / transmit_period : ticks - 1);
+        transmit_timer = transmit_period ? (u16)((ticks - 1) % transmit_period) : 0;
+    } else {
+        u64 future_timer = transmit_timer + ticks;
+        cycles = future_timer / transmit_period;
+        transmit_timer = (u16)(future_timer % transmit_period);
+    }
 
     for (u64 c = 0; c < cycles; ++c) {
         std::array<std::int16_t, 2> sample;
